@@ -525,6 +525,8 @@ type FuncContract struct {
 	Opts     map[string]string
 	Names    []string // explicit parameter names for iface / external contracts
 	Safety   []string // properties the function's safety (no-panic) obligations belong to
+	implMerged bool
+	Attrs    []*SpecFn // abstract-predicate definitions for closures: attr name(params) = body over the captured variables
 	ResNames []string
 }
 
@@ -574,6 +576,7 @@ type Specs struct {
 	Lemmas     []*Lemma
 	Impls      []ImplDecl
 	Immutable  map[string]bool // "pkg.T.f"
+	Volatile   map[string]bool // "pkg.T.f": fields accessed atomically / concurrently: exempt from frames, havoc'd by every effectful call
 	ObjInvs    map[string][]*Clause
 	FilesRead  []string
 	StringsSMT bool
@@ -581,14 +584,14 @@ type Specs struct {
 
 func newSpecs() *Specs {
 	return &Specs{Funcs: map[string]*FuncContract{}, Ifaces: map[string]*FuncContract{}, FuncSpecs: map[string]*FuncContract{},
-		Ghosts: map[string]*GhostDecl{}, SpecFns: map[string]*SpecFn{}, Immutable: map[string]bool{}, ObjInvs: map[string][]*Clause{}}
+		Ghosts: map[string]*GhostDecl{}, SpecFns: map[string]*SpecFn{}, Immutable: map[string]bool{}, Volatile: map[string]bool{}, ObjInvs: map[string][]*Clause{}}
 }
 
 var itemKeywords = map[string]bool{"func": true, "iface": true, "impl": true, "monitor": true, "funcspec": true, "ghost": true,
-	"spec": true, "axiom": true, "lemma": true, "immutable": true, "extern": true}
+	"spec": true, "axiom": true, "lemma": true, "immutable": true, "extern": true, "volatile": true}
 var clauseKeywords = map[string]bool{"facet": true, "requires": true, "ensures": true, "modifies": true, "panics-when": true,
 	"inline": true, "trusted": true, "loop": true, "param": true, "arith": true, "invariant": true, "implements": true,
-	"guards": true, "havocs": true, "pure": true, "names": true, "results": true, "opt": true, "safety": true}
+	"guards": true, "havocs": true, "pure": true, "names": true, "results": true, "opt": true, "safety": true, "attr": true}
 
 // logical lines: a line whose first word is a keyword starts a new logical line; other lines continue the previous.
 func logicalLines(raw []string) []string {
@@ -759,6 +762,15 @@ func (sp *Specs) parseFile(path, pkgName string, lines []string) error {
 				}
 				sp.Immutable[pkgName+"."+strings.TrimPrefix(it[1:i], "*")+"."+it[i+2:]] = true
 			}
+		case "volatile":
+			for _, it := range strings.Split(r, ",") {
+				it = strings.TrimSpace(it)
+				i := strings.Index(it, ").")
+				if !strings.HasPrefix(it, "(") || i < 0 {
+					return fail(ln, fmt.Errorf("want: volatile (T).f"))
+				}
+				sp.Volatile[pkgName+"."+strings.TrimPrefix(it[1:i], "*")+"."+it[i+2:]] = true
+			}
 		case "ghost":
 			// ghost var name sort | ghost field name(T) sort
 			parts := strings.Fields(r)
@@ -888,6 +900,31 @@ func (sp *Specs) parseFile(path, pkgName string, lines []string) error {
 				return fail(ln, fmt.Errorf("implements outside func"))
 			}
 			cur.Impl = r
+		case "attr":
+			// attr name(a T, ...) = body
+			if cur == nil {
+				return fail(ln, fmt.Errorf("attr outside func"))
+			}
+			i := strings.Index(r, "(")
+			j := matchParen(r, i)
+			k := strings.Index(r, "=")
+			if i < 0 || j < 0 || k < j {
+				return fail(ln, fmt.Errorf("want: attr name(params) = body"))
+			}
+			at := &SpecFn{Name: strings.TrimSpace(r[:i])}
+			for _, p := range splitTop(r[i+1 : j]) {
+				f := strings.Fields(strings.TrimSpace(p))
+				if len(f) >= 2 {
+					at.Params = append(at.Params, QVar{f[0], strings.Join(f[1:], " ")})
+				}
+			}
+			at.Body = strings.TrimSpace(r[k+1:])
+			e, err := parseExpr(at.Body)
+			if err != nil {
+				return fail(ln, err)
+			}
+			at.E = e
+			cur.Attrs = append(cur.Attrs, at)
 		case "safety":
 			if cur == nil {
 				return fail(ln, fmt.Errorf("safety outside func"))
